@@ -133,3 +133,57 @@ def run(ctx):
     ft = [c for c in calls_in(gw, "emit_jump") if _top_index(gw, c) > bi and norm(c.args[0]) == cont]
     ctx.ob("C36.R3", ws, "the body falls through to the test", bool(ft), construct="body-fallthrough")
     ctx.ob("C36.R3", ws, "the condition leaves to the break block, which becomes current after the loop", norm(cond[0].args[2]) == brk and any(norm(c.args[0]) == brk and _top_index(gw, c) > bi for c in calls_in(gw, "set_block")), construct="break-target")
+    _conditions(ctx)
+
+
+def _conditions(ctx):
+    """R4: comparison table and short-circuit lowering"""
+    from ..tables import isinstance_branches
+    ctx.rule("C36.R4", "conditions: each comparison operator maps to the IR condition of the same meaning; `and`/`or` evaluate ALL operands left to right with short-circuit targets (and: false leaves to the no-block, or: true leaves to the yes-block)", floor=12)
+    gc = ctx.fn(F, "PythonToIrCompiler.gen_compare")
+    site = F + ":PythonToIrCompiler.gen_compare"
+    tbl = [n.value for n in walk_no_nested(gc) if isinstance(n, ast.Assign) and isinstance(n.value, ast.Dict)]
+    ctx.need(tbl, "gen_compare: operator table not found")
+    want = {"Gt": ">", "GtE": ">=", "Lt": "<", "LtE": "<=", "Eq": "==", "NotEq": "!="}
+    got = {(attr_chain(k) or "").split(".")[-1]: try_const(v) for k, v in dict_items(tbl[0])}
+    for k, v in want.items():
+        ctx.ob("C36.R4", site, "ast.%s -> `%s`" % (k, v), got.get(k) == v, construct="cmp:" + k, detail=str(got.get(k)))
+    cj = [c for c in ast.walk(gc) if isinstance(c, ast.Call) and norm(c.func) == "ir.CJump"]
+    lr = [n for n in walk_no_nested(gc) if isinstance(n, ast.Assign) and isinstance(n.value, ast.Call) and last_name(n.value) == "gen_expr"]
+    ok = len(cj) == 1 and len(lr) == 2 and norm(lr[0].value.args[0]) == "condition.left" and norm(lr[1].value.args[0]) == "condition.comparators[0]" and \
+        [norm(a) for a in cj[0].args] == [norm(lr[0].targets[0]), "op", norm(lr[1].targets[0]), "yes_block", "no_block"]
+    ctx.ob("C36.R4", site, "the jump compares left with right (in that order) and goes to the yes-block when the comparison holds", ok, construct="cjump-order", detail=norm(cj[0]) if cj else "")
+    gb = ctx.fn(F, "PythonToIrCompiler.gen_bool_op")
+    site = F + ":PythonToIrCompiler.gen_bool_op"
+    env = {n.targets[0].id: n.value for n in gb.body if isinstance(n, ast.Assign) and isinstance(n.targets[0], ast.Name)}
+    br = isinstance_branches(gb, "condition.op")
+    for opn, early_pos in (("And", 2), ("Or", 1)):
+        key = [k for k in br if k.split(".")[-1] == opn]
+        if not key:
+            ctx.ob("C36.R4", site, "`%s` is lowered" % opn.lower(), False, construct="boolop:" + opn)
+            continue
+        body = br[key[0]][1]
+        loops = [l for s in body for l in ast.walk(s) if isinstance(l, ast.For)]
+        tail = [c for s in body for c in ast.walk(s) if isinstance(c, ast.Call) and last_name(c) == "gen_cond" and not any(isinstance(a, ast.For) for a in _ancestors(c, gb))]
+        ok_all = False
+        if len(loops) == 1 and len(tail) == 1:
+            it = loops[0].iter
+            it = env.get(it.id, it) if isinstance(it, ast.Name) else it
+            lastv = tail[0].args[0]
+            lastv = env.get(lastv.id, lastv) if isinstance(lastv, ast.Name) else lastv
+            ok_all = norm(it) == "condition.values[:-1]" and norm(lastv) == "condition.values[-1]"
+        ctx.ob("C36.R4", site, "`%s`: every operand is compiled - all but the last in the loop, the last one after it" % opn.lower(), ok_all, construct="all-operands:" + opn,
+               detail="loop over %s" % (norm(env.get(loops[0].iter.id, loops[0].iter)) if loops and isinstance(loops[0].iter, ast.Name) else (norm(loops[0].iter) if loops else "?")))
+        if len(loops) == 1:
+            inner = [c for c in ast.walk(loops[0]) if isinstance(c, ast.Call) and last_name(c) == "gen_cond"]
+            nb = [n for n in ast.walk(loops[0]) if isinstance(n, ast.Assign) and isinstance(n.value, ast.Call) and last_name(n.value) == "new_block"]
+            sb = [c for c in ast.walk(loops[0]) if isinstance(c, ast.Call) and last_name(c) == "set_block"]
+            ok = len(inner) == 1 and len(nb) == 1 and len(sb) == 1 and len(inner[0].args) == 3
+            if ok:
+                fresh = norm(nb[0].targets[0])
+                args = [norm(a) for a in inner[0].args]
+                exit_blk = "no_block" if opn == "And" else "yes_block"
+                ok = args[0] == norm(loops[0].target) and args[early_pos] == exit_blk and args[3 - early_pos] == fresh and norm(sb[0].args[0]) == fresh and inner[0].lineno < sb[0].lineno
+            ctx.ob("C36.R4", site, "`%s`: an operand that decides the result leaves to the %s; otherwise evaluation continues in a fresh block made current" % (opn.lower(), "no-block" if opn == "And" else "yes-block"), ok, construct="short-circuit:" + opn)
+        if len(tail) == 1:
+            ctx.ob("C36.R4", site, "`%s`: the last operand decides between the yes- and the no-block" % opn.lower(), [norm(a) for a in tail[0].args[1:]] == ["yes_block", "no_block"], construct="last-operand:" + opn)
